@@ -79,10 +79,10 @@ class C19(ProgramProperty):
                              "us": [cps(base)], "merge": True}]
                 else:
                     tail = [{"op": "add_prefix", "c": 0, "p": cps("later"), "u": cps(base), "ps": [], "us": []}]
-                tail += [q(0, "records")] + [q(0, "is_uri", u) for u in uris]
+                tail += [q(0, "records"), q(0, "delimiter")] + [q(0, "is_uri", u) for u in uris]
                 tail += [{"op": "discover", "dst": 20, "src": 0, "uris": [cps(u) for u in uris],
                           "delims": [cps(d) for d in delims], "cutoff": cutoff, "metaprefix": cps(meta), "alnum": alnum},
-                         q(20, "records")]
+                         q(20, "records"), q(20, "delimiter")]
                 for st in tail:
                     st["_tail"] = True
                 steps += tail
